@@ -465,10 +465,11 @@ def check_special_values(run, ix, rule, kernels):
                 continue
             raws = [mk(k, '_%d' % i) for i, k in enumerate(ops)]
             got = outcomes(lookup, kernel, raws + [Int(53), Int('round_nearest')], symclasses(*raws))
-            if 'ARITH' in got:
+            if 'ARITH' in got and got - {'ARITH'} <= want:
                 # the value at this class is produced by arithmetic (cosh(0) through exp): not decided here
                 run.stats.setdefault('special_values_undecided', []).append('%s%s' % (kernel, ops))
                 continue
+            got = got - {'ARITH'}        # a path that leaves the table is a finding whatever the others do
             n += 1
             if got <= want:
                 run.ok(rule)
